@@ -138,7 +138,8 @@ TCompiled ==
   /\ devs' = Add(devs, (IF Rec[l].ok THEN WidthTags ELSE {}))
   /\ D' = [D EXCEPT !.over = TRUE]
   /\ UNCHANGED <<I, HT, run, ddk, inp>>
-TSkip == /\ (Ev("cutset") \/ Ev("panic")) /\ UNCHANGED <<I, HT, run, ddk, inp, D, devs>>
+TSkip == /\ Ev("cutset") /\ UNCHANGED <<I, HT, run, ddk, inp, D, devs>>
+TPanic == /\ Ev("panic") /\ devs' = Add(devs, {"C20 panic-in-library", "C12 panic-in-library"}) /\ UNCHANGED <<I, HT, run, ddk, inp, D>>
 
 \* ------------------------------------------------------------------ C20
 FlagCount(c) == Cardinality({i \in 1..4 : c[i]})
@@ -182,7 +183,7 @@ TViz ==
      /\ D' = [D EXCEPT !.shown = IF e.ok /\ ~e.cfg[5] /\ ~D.seen THEN {e.nodes[i].id : i \in DOMAIN e.nodes} ELSE D.shown,
                        !.seen = D.seen \/ (e.ok /\ ~e.cfg[5])]
   /\ UNCHANGED <<I, HT, run, ddk, inp>>
-Next == TReset \/ TCompile \/ TNextVar \/ TDomain \/ TTransition \/ TCost \/ TMerge \/ TRelax \/ TCompiled \/ TSkip \/ TViz
+Next == TReset \/ TCompile \/ TNextVar \/ TDomain \/ TTransition \/ TCost \/ TMerge \/ TRelax \/ TCompiled \/ TSkip \/ TPanic \/ TViz
 Spec == Init /\ [][Next]_vars
 Report == l = Len(Rec) + 1 => PrintT(<<"RESULT", ToJson([total |-> Len(Rec), devs |-> devs])>>)
 Accepted == TLCGet("stats").diameter - 1 = Len(Rec)
